@@ -13,7 +13,11 @@ def check(ctx):
     nu = _tzr.check_utc_shortcut(ctx, rep)
     rep.floor("lookup-free UTC results in the Zinc reader", nu, 1)
     n = zincspec.check(ctx, rep)
+    from rules import eofstores as _eo
+    neo = _eo.check(ctx, rep)
+    rep.floor("stores to Scanner.is_eof", neo, 3)
     zincspec.check_exponent_reader(ctx, rep)
+    zincspec.check_line_breaks_are_tokens(ctx, rep)
     from rules import zincspec as _zl
     nla = _zl.check_lookahead_on_demand(ctx, rep)
     rep.floor("propagated look-aheads in the number / date dispatcher", nla, 2)
